@@ -726,7 +726,8 @@ class C2Profile(ConfigBlock):
     def as_dict(self) -> dict:
         """Return the C2 Profile settings as a dictionary"""
         if self._dict_hash == hash(self.tree):
-            return self._dict_cache
+            # hand out a copy, callers that modify the returned dict or its lists must not change the cached view
+            return {key: list(values) for key, values in self._dict_cache.items()}
         line = []
         stack = []
         list_props = [
@@ -794,7 +795,7 @@ class C2Profile(ConfigBlock):
                 line = []
         self._dict_hash = hash(self.tree)
         self._dict_cache = dict(properties)
-        return self._dict_cache
+        return {key: list(values) for key, values in self._dict_cache.items()}
 
     @property
     def properties(self):
